@@ -287,7 +287,8 @@ def r_root_tiles(rule, root=None):
 def r_children(rule, path, label, dims, root=None):
     fn = worker_fn(path, "render_tile_recurse", root)
     t = txt(fn["body"])
-    if "ifletSome(next_tile_size)=self.tile_sizes.get((depth+1))" in t and "lettile_size=self.tile_sizes[depth];" in t:
+    bound_next = any(f_ in t for f_ in ("ifletSome(next_tile_size)=self.tile_sizes.get((depth+1))", "letSome(next_tile_size)=self.tile_sizes.get((depth+1))else", "matchself.tile_sizes.get((depth+1)){Some(next_tile_size)=>"))
+    if bound_next and "lettile_size=self.tile_sizes[depth];" in t:
         rule.ok("%s: children per axis n = tile_size / next_tile_size at depth + 1" % label, file=path, line=fn["ln"])
     else:
         rule.bad("%s|children|n" % label, "%s: the child count must be tile_size / next_tile_size for the tile size at depth + 1" % label, A.where(fn))
@@ -338,6 +339,66 @@ def r_children(rule, path, label, dims, root=None):
         rule.bad("%s|children|loops" % label, "%s: child loops %s do not cover each axis 0..n with its own index (corner uses %s)" % (label, iters, comps), A.where(fn, c))
 
 
+def _tile_start_ok(fn):
+    """TileSizesRef(&tiles[S..]) with S = (k - 1, saturating) for the first k with tiles[k] < max_size, and
+    tiles.len() - 1 (saturating) when there is none - as an unwrap_or chain, a match or an if-let"""
+    view = A.value_view(fn["body"])
+    tail = A.strip(A.stmt_expr(view["stmts"][-1])) if view.get("stmts") else None
+    m = re.fullmatch(r"TileSizesRef\(&tiles\[(.+)\.\.\]\)", str(txt(tail)) if tail is not None else "")
+    if not m:
+        return False
+    # find the start expression node
+    start = None
+    for r_ in A.find(tail, "Range"):
+        start = r_.get("start")
+    if start is None:
+        return False
+    start = A.strip(start)
+    if start.get("k") == "Path" and A.ident(start):
+        lets = [s_ for s_ in A.find(fn["body"], "Let") if A.binding_name(s_["pat"]) == A.ident(start) and s_.get("init") is not None]
+        if len(lets) != 1:
+            return False
+        start = A.strip(lets[0]["init"])
+
+    def is_pos(e):
+        e = A.strip(e)
+        if e.get("k") != "MethodCall" or e["method"] != "position" or str(txt(e["recv"])) != "tiles.iter()" or len(e["args"]) != 1:
+            return False
+        c = A.strip(e["args"][0])
+        if c.get("k") != "Closure" or len(c.get("inputs") or []) != 1:
+            return False
+        p_ = A.binding_name(c["inputs"][0])
+        return str(txt(A.strip(c["body"]))).strip("()") in ("*%s<max_size" % p_, "max_size>*%s" % p_)
+
+    def cases(e):
+        """-> (value when the position is Some(k), value when it is None) as texts over `k`"""
+        e = A.strip(e)
+        k = e.get("k")
+        if k == "MethodCall" and e["method"] == "saturating_sub" and len(e["args"]) == 1 and str(txt(e["args"][0])) == "1":
+            c = cases(e["recv"])
+            return None if c is None else (c[0] + ".saturating_sub(1)", c[1] + ".saturating_sub(1)")
+        if k == "MethodCall" and e["method"] == "unwrap_or" and len(e["args"]) == 1 and is_pos(e["recv"]):
+            return ("k", str(txt(e["args"][0])))
+        if k == "MethodCall" and e["method"] in ("map_or",) and len(e["args"]) == 2 and is_pos(e["recv"]):
+            f_ = A.strip(e["args"][1])
+            if f_.get("k") == "Closure" and len(f_.get("inputs") or []) == 1:
+                b_ = A.binding_name(f_["inputs"][0])
+                return (re.sub(r"\b%s\b" % re.escape(b_), "k", str(txt(A.strip(f_["body"])))), str(txt(e["args"][0])))
+        if k == "Match" and is_pos(e["e"]) and len(e["arms"]) == 2:
+            some = none = None
+            for arm in e["arms"]:
+                segs, subs = A.pat_variant(arm["pat"]) if arm["pat"].get("k") in ("PTupleStruct", "PIdent", "PPath") else (None, None)
+                if segs and segs[-1] == "Some" and subs and A.binding_name(subs[0]):
+                    some = re.sub(r"\b%s\b" % re.escape(A.binding_name(subs[0])), "k", str(txt(A.unblock(arm["body"]))))
+                elif segs and segs[-1] == "None":
+                    none = str(txt(A.unblock(arm["body"])))
+            return (some, none) if some and none else None
+        return None
+
+    c = cases(start)
+    return c == ("k.saturating_sub(1)", "tiles.len().saturating_sub(1)")
+
+
 def r_tile_sizes(rule, root=None):
     """TileSizes::new enforces strictly decreasing sizes, each dividing the previous"""
     path = "fidget-core/src/render/mod.rs"
@@ -360,7 +421,7 @@ def r_tile_sizes(rule, root=None):
             rule.bad("tilesizes|%s" % what[:20], "TileSizes::new no longer checks that %s" % what, A.where(fn))
     fn = A.find_fn(LIB, "new", self_ty="TileSizesRef", root=root)
     t = txt(fn["body"])
-    if t == "{leti=tiles.iter().position(|t|(*t<max_size)).unwrap_or(tiles.len()).saturating_sub(1);TileSizesRef(&tiles[i..])}":
+    if t == "{leti=tiles.iter().position(|t|(*t<max_size)).unwrap_or(tiles.len()).saturating_sub(1);TileSizesRef(&tiles[i..])}" or _tile_start_ok(fn):
         rule.ok("TileSizesRef::new keeps the smallest tile size that still covers the image, and everything below")
     else:
         rule.bad("tilesizesref", "TileSizesRef::new must start at the last size >= the image size (position of the first smaller size, minus one)", A.where(fn))
@@ -623,6 +684,21 @@ def _normals_in_step(fn):
     return False
 
 
+def _filled_skip(fn):
+    """a column is skipped (`continue`) exactly when its pixel's depth is already >= the depth of the tile's top,
+    corner.z + tile_size - wherever that bound is computed"""
+    from . import effects as E
+
+    for i in A.find(fn["body"], "If"):
+        th = i["then"]
+        if not any(A.strip(A.stmt_expr(s_) or {}).get("k") == "Continue" for s_ in th.get("stmts", [])):
+            continue
+        c = E.canon(i["cond"], E.env_at(fn["body"], i))
+        if re.fullmatch(r"\(self\.out\[.+\]\.depth>=\(tile\.corner\[2\]\+tile_size\)\.try_into\(\)\.unwrap\(\)\)", c):
+            return True
+    return False
+
+
 def r_samples_voxel(rule, root=None):
     fn = worker_fn(VOX, "render_tile_pixels", root)
     t = txt(fn["body"])
@@ -637,7 +713,7 @@ def r_samples_voxel(rule, root=None):
         ("x sample = corner.x + i", "*self.scratch.x.get_unchecked_mut(index)=((tile.corner[0]+i)asf32);"),
         ("y sample = corner.y + j", "*self.scratch.y.get_unchecked_mut(index)=((tile.corner[1]+j)asf32);"),
         ("z sample = corner.z + k", "*self.scratch.z.get_unchecked_mut(index)=((tile.corner[2]+k)asf32);"),
-        ("columns already filled to the tile's top are skipped", "letzmax=(tile.corner[2]+tile_size).try_into().unwrap();if(self.out[o].depth>=zmax){continue;}"),
+        ("columns already filled to the tile's top are skipped", ["letzmax=(tile.corner[2]+tile_size).try_into().unwrap();if(self.out[o].depth>=zmax){continue;}", "@filled-skip"]),
         ("first negative sample in the (descending) column", [
             "letk=match$C.iter().enumerate().find(|(_,$D)|(**$D<0.0)){Some(($I,_))=>$I,None=>continue,};",
             "letSome(k)=$C.iter().position(|$D|(*$D<0.0))else{continue;};",
@@ -645,11 +721,11 @@ def r_samples_voxel(rule, root=None):
         ]),
         ("index flipped back to an ascending voxel index", "letk=((tile_size-1)-k);"),
         ("depth = voxel index + 1", "letz=((tile.corner[2]+k)+1).try_into().unwrap();"),
-        ("one chunk of tile_size samples per column", ["letmut$C=out.chunks(tile_size);"]),
+        ("one chunk of tile_size samples per column", ["letmut$C=out.chunks(tile_size);", "for($K,$C)in(0..self.scratch.columns.len()).zip(out.chunks(tile_size))", "for($K,$C)in$R.zip(out.chunks(tile_size))", "for($K,$C)inout.chunks(tile_size).enumerate()"]),
     ]
     for what, f in need:
         alts = f if isinstance(f, list) else [f]
-        if any((x in t) if "$" not in x else (t.fmatch(x) is not None) for x in alts):
+        if any(_filled_skip(fn) if x == "@filled-skip" else ((x in t) if "$" not in x else (t.fmatch(x) is not None)) for x in alts):
             rule.ok("voxel samples: %s" % what, file=VOX, line=fn["ln"])
         else:
             rule.bad("samples|voxel|%s" % what[:28], "per-voxel evaluation: %s (`%s` not found)" % (what, alts[0][:60]), A.where(fn))
